@@ -5,6 +5,7 @@ import (
 	"fmt"
 	"net/url"
 	"reflect"
+	"regexp"
 	"sort"
 	"strings"
 
@@ -322,6 +323,11 @@ func truncate(s string, n int) string {
 	return s
 }
 
+var (
+	siteNumRe  = regexp.MustCompile(`M\d+`)
+	siteFuncRe = regexp.MustCompile(`func\d+`)
+)
+
 func panicSite(p string) string {
 	lines := strings.Split(p, "\n")
 	for _, l := range lines[1:] {
@@ -334,6 +340,9 @@ func panicSite(p string) string {
 			if k := strings.Index(fn, "."); k >= 0 {
 				fn = fn[k+1:]
 			}
+			// method numbers and closure indices depend on how a family is packed
+			fn = siteNumRe.ReplaceAllString(fn, "MN")
+			fn = siteFuncRe.ReplaceAllString(fn, "func")
 			return "site=" + fn
 		}
 	}
